@@ -6,6 +6,23 @@ NOTE = ("bounded scope only (declared lattices/catalogues/depths); exact Fractio
 TECH = "exhaustive small-scope enumeration of the real implementation against an exact reference model (explicit-state explorer written for this task)"
 
 CHECKS = {
+    "C06": ("Explicit-state BFS over words in {s, t, s^-1, t^-1} (depth 4 quick / 5 thorough) for pairs of exact generator matrices (shear, swap, "
+            "projective, det 2, det -3, rational rotation, translation, complex unitary / phase-permutation, integer-dtype matrices) in 2D and 3D; "
+            "state = canonical exact matrix of the word; at every transition the real letter is applied to the real objects of the parent state "
+            "(19-20 object kinds incl. dual quadrics, polytopes, collections) and compared with the exact action of the word: stepwise vs composed "
+            "application, inverse round trip, class preservation, cached _line/_plane; t**k for k in -12..12 (thorough -20..20), collections of transformations.",
+            NOTE, "explicit-state breadth-first search over transformation words on the real implementation with an exact rational group model", "DESIGN.md section 5, C06"),
+    "C07": ("Every generator (non-isometries and integer-dtype matrices included) x every general-position configuration of each join/meet kind: "
+            "t*op(args) and op(t*args) both equal the exact image of the exact span/intersection; incidence matrices (line/plane/3D-line x point, "
+            "plane x line) before and after transformation equal the exact incidence; quadric contains / is_tangent (point and dual quadrics) on "
+            "lattice points and hyperplanes; cross ratios of points, pencils and from_point forms; polytope vertex order.",
+            NOTE, TECH, "DESIGN.md section 5, C07"),
+    "C08": ("translation over all lattice offsets x point forms (normalised / scaled / negative representative), rotation(a) for 30 angles incl. "
+            "additivity over all pairs, rotation(a, axis) for all 124 lattice axis directions (orthogonal, det 1, axis fixed, trace, turn angle, "
+            "additivity, opposite axis), scaling, reflection for every lattice mirror of {-2..2}^3 / {-1,0,1}^4 against the exact Householder map "
+            "(involution, fixed points, agreement with mirror), from_points over all general-position 4-frames of the 3x3 lattice (both directions) "
+            "and 5-frames in 3D, from_points_and_conics over lattice-point triples of four conics.",
+            NOTE, TECH, "DESIGN.md section 5, C08"),
     "C19": ("Every pairing of 21 left operand kinds (all index-type patterns of rank<=3 incl. free axes, finite/infinite/non-normalised points, "
             "collections, lines, planes, quadrics, transformations) x 11 right operand kinds x 8 operations x operator/ufunc form is executed and compared "
             "with numpy on the raw arrays (index types of t) or with exact affine point arithmetic; every index expression of length <= rank+1 "
